@@ -107,6 +107,45 @@ def part_real_ghe(g, idx, res, real):
     exp = raw - math.log(ghe.bhe.b.r_b / ghe.gFunction.r_b_values[H])
     if not np.allclose(np.asarray(gi.y)[-n_l:], exp, rtol=0, atol=1e-12):
         res["viol"].append({"mechanism": "long-time-values-not-radius-corrected-curve", "message": "grab_g_function long-time part differs from stored curve - ln(rb*/rb)", "case": {"H": H, "pipe": arr}})
+    # ---- the same request again after the object's long-time family was replaced (what compute_g_functions() does between the
+    # search and the sizing) and after the nominal radius changed: the long-time part must follow the family and radius of *now*
+    h_req = float(round(H * g.uniform(0.8, 0.95), 3))
+    with warnings.catch_warnings():
+        warnings.simplefilter("ignore")
+        ghe.grab_g_function(ghe.B_spacing / h_req)  # first request at this B/H: answered from the single-height family
+    n_bh = len(coords)
+    if real and n_bh <= 9:
+        ghe.sim_params.min_height = 2.0 * h_req - H * 1.1
+        ghe.sim_params.max_height = H * 1.1
+        with warnings.catch_warnings():
+            warnings.simplefilter("ignore")
+            ghe.compute_g_functions()
+        kind = "compute_g_functions"
+    else:
+        base2 = np.array(GG.synthetic_g_lts(g, n_bh)) * float(g.uniform(1.05, 1.3))
+        fam = {float(round(H * 0.6, 3)): (base2 * 0.97).tolist(), h_req: base2.tolist(), float(round(H * 1.2, 3)): (base2 * 1.02).tolist()}
+        ghe.gFunction = GG.make_gfunction(fam, ghe.B_spacing, ghe.bhe.b.r_b * float(g.uniform(0.8, 1.25)), ghe.bhe.b.D, coords)
+        kind = "family-replaced"
+    stored_h = min(ghe.gFunction.g_lts, key=lambda hh: abs(hh - h_req))
+    if abs(stored_h - h_req) < 1e-9 * h_req:
+        with warnings.catch_warnings():
+            warnings.simplefilter("ignore")
+            gi2, _ = ghe.grab_g_function(ghe.B_spacing / h_req)
+        raw2 = np.asarray(ghe.gFunction.g_lts[stored_h], dtype=float)
+        exp2 = raw2 - math.log(ghe.bhe.b.r_b / ghe.gFunction.r_b_values[stored_h])
+        if not np.allclose(np.asarray(gi2.y)[-len(raw2):], exp2, rtol=0, atol=1e-9):
+            res["viol"].append({"mechanism": "long-time-values-stale-after-" + kind, "message": f"second request at the same B/H after {kind}: max |dg| = {float(np.max(np.abs(np.asarray(gi2.y)[-len(raw2):] - exp2))):.3g} from the stored curve of the current family", "case": {"H": H, "H_requested": h_req, "pipe": arr, "boreholes": n_bh}})
+        res["requests_after_family_change"] = res.get("requests_after_family_change", 0) + 1
+        # same family, other radius
+        rb_old = ghe.bhe.b.r_b
+        ghe.bhe.b.r_b = rb_old * float(g.uniform(0.7, 0.9))
+        with warnings.catch_warnings():
+            warnings.simplefilter("ignore")
+            gi3, _ = ghe.grab_g_function(ghe.B_spacing / h_req)
+        exp3 = raw2 - math.log(ghe.bhe.b.r_b / ghe.gFunction.r_b_values[stored_h])
+        if not np.allclose(np.asarray(gi3.y)[-len(raw2):], exp3, rtol=0, atol=1e-9):
+            res["viol"].append({"mechanism": "long-time-values-ignore-a-changed-borehole-radius", "message": f"request after r_b {rb_old:.4f} -> {ghe.bhe.b.r_b:.4f}: max |dg| = {float(np.max(np.abs(np.asarray(gi3.y)[-len(raw2):] - exp3))):.3g}", "case": {"H": H, "H_requested": h_req, "pipe": arr}})
+        ghe.bhe.b.r_b = rb_old
     sts_end = float(ghe.radial_numerical.lntts[-1])
     res["sts_end_below" if sts_end < -8.5 else "sts_end_above"] += 1
     res["real_ghe"] += 1
@@ -309,6 +348,7 @@ def check(tier, seed):
         rep.extra["family_storage_orders_seen"] = sorted(set(rep.extra["family_storage_orders_seen"]) | set(r.get("storage_orders", [])))
         kept.update(r["kept_counts"])
         worst_self = max(worst_self, r["selfcheck"])
+        rep.count("requests_repeated_after_family_or_radius_change", r.get("requests_after_family_change", 0))
         for k2 in ("combine_direct", "real_ghe", "sts_end_below", "sts_end_above", "interp_checked", "radius_checked", "uhtr_checked", "mift_checked"):
             rep.count(k2, r[k2])
         for k2 in ("worst_interp_err", "worst_uhtr_single", "worst_uhtr_field", "worst_mift_dev"):
